@@ -249,6 +249,9 @@ def payload_slots(mod, session):
         s.append(("harmonic", set_harm))
     elif t == "VorbisPlayer":
         def set_data(v):
+            if CUR_LAYOUT >= 2 and v % 16 == 7:
+                mod.data = bytes(mix(v, j) & 0xFF for j in range(64)) * (256 + (v >> 8) % 512)  # 16-48 KiB
+                return
             mod.data = None if v % 5 == 0 else bytes_from(v, 512)
 
         s.append(("data", set_data))
@@ -316,6 +319,8 @@ def sampler_slots(mod, session):
             smp.format = list(Sampler.Format)[w % 3]
             smp.channels = list(Sampler.Channels)[(w >> 2) % 2]
             smp.data = bytes_from(w >> 3, 64) * 4
+            if CUR_LAYOUT >= 2 and (w >> 20) % 16 == 3:
+                smp.data = smp.data * 256 + bytes(8)  # a sample of tens of KiB
             smp.data = smp.data[: len(smp.data) - len(smp.data) % 8]
             return
         if kind == 1:
@@ -369,6 +374,9 @@ def sampler_slots(mod, session):
             return
         if kind == 0:
             n = w % 13
+            if CUR_LAYOUT >= 2:
+                # list lengths are boundary-biased like values: empty, one, the legacy maximum, beyond it
+                n = (0, 1, 12, 13, 16)[(w >> 4) % 5] if w & 1 else (w >> 4) % 17
             pts = []
             x = 0
             for j in range(n):
@@ -399,7 +407,7 @@ def sampler_slots(mod, session):
         mod.note_samples[keys[pick_index(v, vals)]] = pick_int(v >> 8, 0, 127)
 
     def set_ins(v):
-        kind = v % 9
+        kind = v % (11 if CUR_LAYOUT >= 2 else 9)
         w = v >> 4
         if kind == 0:
             mod.instrument_name = bytes_from(w, 22).rstrip(b"\0")
@@ -419,8 +427,12 @@ def sampler_slots(mod, session):
         elif kind == 7:
             mod.vibrato_depth = pick_int(w, 0, 255)
             mod.vibrato_rate = pick_int(w >> 9, 0, 63)
-        else:
+        elif kind == 8 or CUR_LAYOUT < 2:
             mod.volume_fadeout = pick_int(w, 0, 8192)
+        elif kind == 9:
+            mod.version = pick_int(w, 0, 6)  # instrument format revision stored in the record
+        else:
+            mod.max_version = pick_int(w, 0, 6)
 
     def set_effect(v):
         if v % 4 == 0:
